@@ -41,8 +41,10 @@ type CancelPlan struct {
 type Scenario struct {
 	LaneSize  int          `json:"lane_size"`
 	QueueSize int          `json:"queue_size"`
-	TimeoutMs int          `json:"timeout_ms"` // PushTask timeout: 1 (timeouts occur) or 3600000
+	TimeoutMs int          `json:"timeout_ms"`       // PushTask timeout: 1 (timeouts occur) or 3600000
+	Warmup    []PushSpec   `json:"warmup,omitempty"` // pushed (by one producer) and drained before the pins
 	Pins      []int        `json:"pins,omitempty"`
+	Rush      bool         `json:"rush,omitempty"` // push, cancel and Wait right after New, without settling
 	Producers [][]PushSpec `json:"producers"`
 	Cancel    CancelPlan   `json:"cancel"`
 	PostPush  int          `json:"post_push"` // pushes per lane issued after the cancel returned
